@@ -78,6 +78,9 @@ structure Input where
   validatorError : Bool
   methods : List String        -- OCSP / CRL / fallback annotations (logging only)
   serverErrors : List Bool     -- per-certificate server errors (logging only)
+  errorWithResults : Bool      -- a validator-level error arrives TOGETHER with per-certificate results
+                               -- (only meaningful with validatorError): the error decides, not the results
+  deprecatedCtor : Bool        -- the verifier was built with the deprecated NewWithOptions constructor: must not matter
   identityPlugin : Bool        -- the signature names a verification plugin that declares ONLY the
                                -- trusted-identity capability: revocation stays with the native validator
   deriving Repr, FromJson, ToJson
